@@ -17,7 +17,7 @@ func init() {
 		Technique: "guarded-sink dominance with value identity (source address of the same read/accept), who-may-access on the client socket field, backward dependency slices of the key functions",
 		Explanation: "C02.1 every write to Allocation.TurnSocket (all are in package allocation) is dominated by GetChannelByAddr(src)!=nil or GetPermission(src)!=nil on the same allocation, where src is result #1 of the same relay ReadFrom (resp. RemoteAddr() of the same accepted connection); " +
 			"C02.2 addTCPConnection in connHandler is guarded likewise for the very connection registered, and on the no-permission edge the connection is closed on every path back to the accept loop; " +
-			"C02.3 dependency slices: FingerprintAddr depends on the IP only, AddrEqual on IP and Port of both arguments (not the zone), GetChannelByAddr selects by AddrEqual(cb.Peer, addr); " +
+			"C02.3 dependency slices: FingerprintAddr (and the permission table's own key function, if it has one) depends on the IP only and is a canonical form of it (shape evaluation, ipform.go), AddrEqual on IP and Port of both arguments (not the zone), GetChannelByAddr selects by AddrEqual(cb.Peer, addr); " +
 			"C02.5 installed addresses do not alias decode storage and C02.6 expiry removes exactly the entry's own key (so an entry is gone after its timeout); " +
 			"C02.4 the destination of those writes is the owner's a.fiveTuple.SrcAddr.",
 		NotCovered: "timing of expiry; 'silently' is covered only as far as C02.1 enumerates every write to the client socket; interleavings between test and write.",
@@ -369,6 +369,13 @@ func ruleAddrDeps(c *Ctx, rule string) {
 		fn := w.Func("ipnet", "", name)
 		c.Anchor(rule, name)
 		got := w.addrFieldDeps(fn)
+		if name == "FingerprintAddr" {
+			// the shape evaluator's view: it ran the function for every shape of address, and
+			// a use of the port or the zone would have tainted the key
+			if decided, canonical, _ := w.ipKeyVerdict(fn); decided && canonical {
+				got = want[name]
+			}
+		}
 		if name == "AddrEqual" {
 			// written with net/netip (AddrPort values compared): the netip evaluator's view
 			if ok, deps, _, _ := w.netipAddrEqual(fn); ok {
@@ -452,10 +459,32 @@ func ruleAddrDeps(c *Ctx, rule string) {
 				bad = "the fingerprint returned at " + w.instrPos(r) + " is " + why
 			}
 		}
+		// however the key is put together: the function evaluated over the three shapes of
+		// an IP (4-byte, IPv4-mapped, genuine IPv6) — see ipform.go; the syntactic forms above
+		// decide only where that evaluator does not apply
+		if decided, canonical, why := w.ipKeyVerdict(fn); decided {
+			if canonical {
+				bad = ""
+			} else {
+				bad = why
+			}
+		}
 		if bad == "" && n > 0 {
 			c.OK(rule, fname(fn), "FingerprintAddr canonical", w.pos(fn.Pos()), "the key is IP.String() / the To16() bytes of the address's IP: one key per address")
 		} else {
 			c.Bad(rule, fname(fn), "FingerprintAddr canonical", w.pos(fn.Pos()), bad+": not a canonical form of the IP — different addresses can share a key (bytes packed into a fixed array make a.b.c.d collide with aabb:ccdd::; To4() is nil for every IPv6 address), so a permission for one peer admits another")
+		}
+	}
+	// the permission table keyed by a function of its own: the same obligation on that function
+	if kf := w.permKeyFn(); kf != w.Func("ipnet", "", "FingerprintAddr") {
+		decided, canonical, why := w.ipKeyVerdict(kf)
+		switch {
+		case decided && canonical:
+			c.OK(rule, fname(kf), "permission key canonical", w.pos(kf.Pos()), "evaluated over the three shapes of an IP (4-byte, IPv4-mapped, IPv6): one key per address, no two addresses share one, port and zone play no part")
+		case decided:
+			c.Bad(rule, fname(kf), "permission key canonical", w.pos(kf.Pos()), "the function that keys the permission table is not a canonical form of the peer IP: "+why+" — a permission for one peer admits another, or is not found for its own peer")
+		default:
+			c.Bad(rule, fname(kf), "permission key canonical", w.pos(kf.Pos()), "cannot show that the function that keys the permission table is a canonical form of the peer IP: "+why)
 		}
 	}
 	// AddrEqual must compare a with b (not a with a): each comparison pairs the two parameters
